@@ -18,6 +18,8 @@ package model
 
 import (
 	"istio.io/istio/pkg/config/host"
+	"istio.io/istio/pkg/config/visibility"
+	"istio.io/istio/pkg/util/sets"
 	"istio.io/istio/pkg/verif"
 )
 
@@ -55,6 +57,7 @@ func caPickedNamespaceDestinationIsVisible(ps *PushContext, configNamespace stri
 //verif:contract (*SidecarScope).collectImportedServices
 //verif:prop C07
 //verif:nosafety
+//verif:inline-target serviceMatchingListenerPort serviceMatchingVirtualServicePorts
 func ctCollectImportedServices(sc *SidecarScope, ps *PushContext, configNamespace string) {
 	verif.Requires("scope-and-context-present", sc != nil && ps != nil)
 	// representation invariant of the service index (initServiceRegistry files every service under its own
@@ -111,4 +114,82 @@ func invPickBestVisibleNamespace(ps *PushContext, byNamespace map[string]*Servic
 		s, in := byNamespace[ns]
 		return in && s == currentBestService && ps.IsServiceVisible(currentBestService, configNamespace)
 	})()
+}
+
+// ---------------------------------------------------------------------------------------------
+// C07: what "visible from a namespace" means
+// ---------------------------------------------------------------------------------------------
+
+func exportHas(s sets.Set[visibility.Instance], v visibility.Instance) bool {
+	_, ok := s[v]
+	return ok
+}
+
+// declaredExportTo: the service's own exportTo, or the mesh default when it has none.
+func declaredExportTo(ps *PushContext, service *Service) sets.Set[visibility.Instance] {
+	if len(service.Attributes.ExportTo) > 0 {
+		return service.Attributes.ExportTo
+	}
+	return ps.exportToDefaults.service
+}
+
+// from the statement: "a service that is not exported to its namespace (exportTo, mesh default export
+// settings, ServiceEntry visibility)". The clauses below are the meaning of exportTo ("*" everyone, "."
+// own namespace, "~" nobody, else the named namespaces) and of the ServiceEntry visibility cap (it only
+// ever narrows).
+//
+//verif:contract (*PushContext).IsServiceVisible
+//verif:prop C07
+func ctIsServiceVisible(ps *PushContext, service *Service, namespace string) {
+	verif.Requires("context-present", ps != nil)
+	v := ps.IsServiceVisible(service, namespace)
+	// the clauses are about real namespace names, not the reserved exportTo symbols
+	if namespace == string(visibility.Public) || namespace == string(visibility.Private) || namespace == string(visibility.None) {
+		return
+	}
+	verif.Ensures("no-service-is-not-visible", service != nil || !v)
+	if service == nil {
+		return
+	}
+	e := declaredExportTo(ps, service)
+	own := service.Attributes.Namespace == namespace
+	declared := exportHas(e, visibility.Public) || (exportHas(e, visibility.Private) && own) || exportHas(e, visibility.Instance(namespace))
+	capped := ps.Mesh.GetServiceEntryVisibility().GetApplyToSidecars() &&
+		(service.Attributes.Visibility == ServiceVisibilityNamespace || service.Attributes.Visibility == ServiceVisibilityNone)
+	// exported to nobody
+	verif.Ensures("export-to-none-hides-from-everyone", !(len(e) == 1 && exportHas(e, visibility.None)) || !v)
+	// without the ServiceEntry visibility cap, visibility is exactly the declared exportTo
+	verif.Ensures("visible-iff-exported-to-the-namespace", capped || (len(e) == 1 && exportHas(e, visibility.None)) || v == declared)
+	// the cap only narrows: never visible where the declaration does not export, and a NAMESPACE cap
+	// confines to the service's own namespace, a NONE cap hides it
+	verif.Ensures("visibility-cap-only-narrows", !capped || !v || (declared || exportHas(e, visibility.Instance(service.Attributes.Namespace)) || exportHas(e, visibility.Private)))
+	verif.Ensures("namespace-cap-confines-to-own-namespace", !capped || service.Attributes.Visibility != ServiceVisibilityNamespace || !v || own ||
+		(len(e) == 1 && exportHas(e, visibility.None)))
+	verif.Ensures("none-cap-hides", !capped || service.Attributes.Visibility != ServiceVisibilityNone || !v ||
+		(len(e) == 1 && exportHas(e, visibility.None)))
+}
+
+// A service narrowed to the ports a listener or VirtualService needs is the service itself or a copy
+// that keeps its identity and everything visibility depends on.
+func sameIdentityAndExport(a, b *Service) bool {
+	return a.Hostname == b.Hostname && a.Attributes.Namespace == b.Attributes.Namespace &&
+		verif.Same(a.Attributes.ExportTo, b.Attributes.ExportTo) && a.Attributes.Visibility == b.Attributes.Visibility
+}
+
+//verif:contract serviceMatchingListenerPort
+//verif:prop C07
+func ctServiceMatchingListenerPort(service *Service, ilw *IstioEgressListenerWrapper) {
+	verif.Requires("inputs-present", service != nil && ilw != nil && ilw.IstioListener != nil)
+	verif.Requires("ports-present", verif.Forall(func(i int) bool { return !(0 <= i && i < len(service.Ports)) || service.Ports[i] != nil }))
+	r := serviceMatchingListenerPort(service, ilw)
+	verif.Ensures("nil-itself-or-an-identical-copy", r == nil || r == service || (verif.Fresh(r) && sameIdentityAndExport(r, service)))
+}
+
+//verif:contract serviceMatchingVirtualServicePorts
+//verif:prop C07
+func ctServiceMatchingVirtualServicePorts(service *Service, vsDestPorts sets.Set[int]) {
+	verif.Requires("service-present", service != nil)
+	verif.Requires("ports-present", verif.Forall(func(i int) bool { return !(0 <= i && i < len(service.Ports)) || service.Ports[i] != nil }))
+	r := serviceMatchingVirtualServicePorts(service, vsDestPorts)
+	verif.Ensures("nil-itself-or-an-identical-copy", r == nil || r == service || (verif.Fresh(r) && sameIdentityAndExport(r, service)))
 }
